@@ -22,7 +22,7 @@ from fractions import Fraction
 
 DRIVER = "C18"
 RULE = ("size literals: seeded generator over plain/huge integers (up to 40 digits, >= 2^53), decimals with > 15 significant "
-        "digits, exponents |e| <= 30 (three digits after mutation; larger ones excluded, see ASSUMPTIONS), single/misplaced underscores, units {'',B,kB..PB} and wrong-case/unknown units, spaces and "
+        "digits, exponents |e| <= 30, up to +-2000, on the boundary of the range test (most significant digit at 10^+-998..1002), and huge (5-30 digits, incl. the limits of decimal.Decimal), single/misplaced underscores, units {'',B,kB..PB} and wrong-case/unknown units, spaces and "
         "ASCII whitespace/control characters at any position, signs, inf/nan words, malformed strings, random one-character "
         "mutations of valid literals; ints and floats (incl. inf/nan/-0.0/subnormal/2^k); spec pairs: every single-field "
         "difference over pools of 3-6 values per field plus equal and multi-field pairs; API sweep: every entry of the call "
@@ -31,12 +31,12 @@ RULE = ("size literals: seeded generator over plain/huge integers (up to 40 digi
         "one field, sweep case with differing specs; distinct by request text / case description")
 ASSUMPTIONS = [
     "size strings are ASCII in the Lean correspondence (Python's float()/Fraction() also accept non-ASCII digits and spaces; those are covered by the direct oracle only)",
-    "literals are short enough for Python's int<->str limit (4300 digits) and exponents small enough to materialise 10**e",
+    "literals are shorter than Python's int<->str limit (4300 digits)",
     "Python `==` on the values of the compared Spec fields is an equivalence relation (model: value classes)",
     "the optimizer replaces ops only by fused ops that copy allowed_mem/reserved_mem from a constituent op (FusedFrom; shape extracted from fuse/fuse_multiple and checked on every finalized plan of the sweep)",
 ]
 TRUSTED = [
-    "modelled not verified: Python's float() and Fraction() string grammars (the Lean lexer `lexNumber` is tied to them by the literal correspondence only)",
+    "modelled not verified: Python's float() and decimal.Decimal() string grammars and the representability limits of Decimal (MAX_EMAX, MIN_ETINY) — the Lean lexer `lexNumber`/`decimalOk` is tied to them by the literal correspondence only",
     "the static site table (harness/extract_c18.py) is a heuristic dataflow; completeness of 'every public function' rests on the introspecting API sweep",
 ]
 
@@ -51,7 +51,10 @@ UNITS = ["", "B", "kB", "MB", "GB", "TB", "PB"]
 BAD_UNITS = ["KB", "kb", "Kb", "mB", "Mb", "mb", "gB", "GiB", "KiB", "kiB", "EB", "ZB", "b", "k", "M", "G", "BB", "kBB", "Bk", "kB.", "kB0"]
 WS = ["\t", "\n", "\x0b", "\x0c", "\r", "\x1c", "\x1d", "\x1e", "\x1f", "\x00", "\x7f"]
 ALPHABET = "0123456789" * 3 + "..__eE+-- \tBkMGTPbKinfaty"
-FIXED = ["", " ", "  ", "B", "kB", " kB", ".", "..", "-", "+", "_", "e", "e5", "1e", "1e+", "1e-", "0x10", "1,000", "1/2", "abc",
+FIXED = ["1e1000", "1e1001", "10e1000", "0.1e1001", "0.1e1002", "9.99e1000", "1e-1000", "1e-1001", "0.001e-997", "0.001e-998",
+         "0e9999", "0.0e-5000", "-0e5000", "00010e1000", "0010e999", "0.00100e1003", "1e1000kB", "1e998PB", "1e1001B", ".5e1001", "5.e1000",
+         "123456e995", "123456e996", "1e10_00", "1e1_001", "1e+1000", "1E-1001", "-1e1001", "-1e1000", "1e1000 kB", "1.5e2000", "1e-2000MB",
+         "", " ", "  ", "B", "kB", " kB", ".", "..", "-", "+", "_", "e", "e5", "1e", "1e+", "1e-", "0x10", "1,000", "1/2", "abc",
          "5kBB", "B5", "5 k B", "5k B", "- 5", "-\t5", "1__0", "_1", "1_", "1._5", "1_.5", "._5", ".5", "5.", ".e2", "1.e2", "+.5e1",
          "1e1_0", "1e_1", "1_e1", "-0", "-0.0", "+0", "-0kB", "-1e-400", "0e0", "00012", "0.0", "1.0", "1.50 kB", "inf", "-inf",
          "+inf", "nan", "-nan", "NaN", "iNfInItY", "infinit", "infinityy", "infB", "nankB", "INFINITYB", "in f", "T", "TB", "1T", "1TB",
@@ -102,9 +105,21 @@ def gen_number(rng):
     if fp is not None and rng.random() < 0.1:
         fp = _with_underscores(rng, fp)
     s = ip + ("." + fp if fp is not None else "")
-    if rng.random() < 0.3:
+    r = rng.random()
+    if r < 0.3:
         e = rng.randint(-30, 30)
         s += rng.choice("eE") + (rng.choice(["", "+"]) if e >= 0 else "") + str(e)
+    elif r < 0.38:
+        e = rng.randint(-2000, 2000)
+        s += rng.choice("eE") + (rng.choice(["", "+"]) if e >= 0 else "") + str(e)
+    elif r < 0.46 and re.search(r"\d", s):
+        # boundary of `abs(Decimal.adjusted()) > 1000`: place the most significant digit at 998..1002 (either sign)
+        try:
+            adj0 = decimal.Decimal(s.replace("_", "")).adjusted()
+            e = rng.choice([1, -1]) * rng.choice([998, 999, 1000, 1000, 1001, 1001, 1002]) - adj0
+            s += rng.choice("eE") + (rng.choice(["", "+"]) if e >= 0 else "") + str(e)
+        except decimal.InvalidOperation:
+            pass
     r = rng.random()
     if r < 0.08:
         s = "-" + s
@@ -143,13 +158,108 @@ def gen_literal(rng):
     return s[:120]
 
 
-_BIG_EXP = re.compile(r"[eE][+-]?[\d_]{4,}")
+_BIG_EXP = re.compile(r"[eE][+-]?[\d_]{5,}")
 
 
 def bounded(s):
-    """Exponents are kept below 1000: `Fraction('1e999999999')` (and so the code under test) would try to
-    materialise 10**999999999.  Stated in ASSUMPTIONS."""
+    """Exponent with at most four digits: safe to evaluate in this process and to send to the `denote` request
+    (which materialises 10^e).  Longer exponents are answered by the real code through `guarded_outcomes`."""
     return not _BIG_EXP.search(re.sub(r"\s", "", s))
+
+
+BIG = ["1e999999999", "1e-999999999", "1e999999999kB", "-1e999999999", "0e999999999", "0.000e-99999999", "-0e99999PB", "1e99999",
+       "1e-99999", "12345e99999kB", "1e10000", "0.1e10001", "1e1_00000",
+       "1e999999999999999999", "1e1000000000000000000", "10e999999999999999998", "10e999999999999999999",
+       "0.1e1000000000000000000", "0.1e1000000000000000001", "0.01e1000000000000000001", "0e999999999999999999",
+       "0e1000000000000000000", "0.0e1000000000000000000", "0.0e1000000000000000001", "00e1000000000000000000",
+       "1e-1999999999999999997", "1e-1999999999999999998", "0.1e-1999999999999999996", "0.1e-1999999999999999997",
+       "12e-1999999999999999997", "12e-1999999999999999998", "0e-1999999999999999997", "0e-1999999999999999998",
+       "0.0e-1999999999999999996", "0.0e-1999999999999999997", "1e9223372036854775807", "1e9223372036854775808",
+       "1e-9223372036854775808", "1e" + "9" * 30, "1e-" + "9" * 30, "0e" + "9" * 30, "0e-" + "9" * 30, "1e" + "9" * 30 + "kB",
+       "5e999999999B", "1.5e+123456789 MB", "1E999999999", " 1e999999999 "]
+
+
+def gen_big(rng):
+    s = gen_number(rng).split("e")[0].split("E")[0]
+    e = str(rng.randint(10 ** 4, 10 ** rng.randint(5, 25)))
+    if rng.random() < 0.2:
+        s = rng.choice(["0", "0.0", "00", ".0", "-0"])
+    return s + rng.choice("eE") + rng.choice(["", "+", "-", "-"]) + e + rng.choice(UNITS)
+
+
+_WORKER = r"""
+import sys, json
+sys.path.insert(0, sys.argv[1])
+from cubed.utils import convert_to_bytes
+for line in sys.stdin:
+    s = json.loads(line)
+    try:
+        r = convert_to_bytes(s)
+        out = ("ok-nonint %r" % (r,)) if (isinstance(r, bool) or not isinstance(r, int)) else ("ok %d" % r if r < 10 ** 400 else "ok-huge %d" % len(str(r)))
+    except ValueError as e:
+        m = str(e)
+        out = ("error format" if "Expected the string to be a numeric value" in m else "error noninteger" if "non-integer number of bytes" in m
+               else "error negative" if "Must be a positive value" in m else "error range" if "Exponent is out of range" in m
+               else "error other:ValueError:" + m[:40])
+    except IndexError:
+        out = "error index"
+    except BaseException as e:
+        out = "error other:" + type(e).__name__
+    print(out, flush=True)
+"""
+
+
+def guarded_outcomes(lits, timeout=5.0):
+    """Outcome of the real `convert_to_bytes` for each literal, computed in a child process so that a call that does not
+    return within `timeout` seconds is reported as 'timeout' instead of hanging the check."""
+    import json
+    import select
+    import subprocess
+    import sys
+
+    from common import REPO
+    out, proc = [], None
+
+    def start():
+        env = dict(os.environ)
+        env["PYTHONINTMAXSTRDIGITS"] = "0"
+        return subprocess.Popen([sys.executable, "-c", _WORKER, REPO], stdin=subprocess.PIPE, stdout=subprocess.PIPE,
+                                stderr=subprocess.DEVNULL, text=True, bufsize=1, env=env)
+
+    for s in lits:
+        if proc is None or proc.poll() is not None:
+            proc = start()
+        try:
+            proc.stdin.write(json.dumps(s) + "\n")
+            proc.stdin.flush()
+            ready, _, _ = select.select([proc.stdout], [], [], timeout if len(out) else timeout + 20)   # first call pays the import
+            line = proc.stdout.readline() if ready else ""
+        except (BrokenPipeError, OSError):
+            line = ""
+        if not line:
+            out.append("timeout" if proc.poll() is None else "crashed")
+            proc.kill()
+            proc = None
+        else:
+            out.append(line.rstrip("\n"))
+    if proc is not None:
+        try:
+            proc.stdin.close()
+            proc.wait(timeout=5)
+        except Exception:
+            proc.kill()
+    return out
+
+
+def big_sample(ctx, n):
+    out = list(BIG)
+    seen = set(out)
+    while len(out) < n:
+        s = gen_big(ctx.rng)
+        if s not in seen and s.isascii():
+            seen.add(s)
+            out.append(s)
+    return out
 
 
 def cps(s):
@@ -168,6 +278,8 @@ def classify(fn, *a, **kw):
             return "error noninteger"
         if "Must be a positive value" in m:
             return "error negative"
+        if "Exponent is out of range" in m:
+            return "error range"
         return "error other:ValueError:" + m[:40]
     except IndexError:
         return "error index"
@@ -178,6 +290,7 @@ def classify(fn, *a, **kw):
     return "ok %d" % r
 
 
+HUGE = "huge"
 NUM_RE = re.compile(r"([+-]?)(?:(\d+(?:_\d+)*)(?:\.((?:\d+(?:_\d+)*)?))?|\.(\d+(?:_\d+)*))(?:[eE]([+-]?\d+(?:_\d+)*))?")
 
 
@@ -200,13 +313,15 @@ def exact_value(s):
     ip = (ip or "").replace("_", "")
     fp = (fp1 or fp2 or "").replace("_", "")
     e = int(ex.replace("_", "")) if ex else 0
-    if abs(e) > 5000:
-        return None
     mant = int(ip + fp) if (ip + fp) else 0
+    if mant == 0:
+        return Fraction(0)
+    if abs(e) > 200000:
+        return HUGE   # denotes a number this evaluator will not materialise
     val = Fraction(mant) * Fraction(10) ** (e - len(fp)) * 1000 ** unit
     val = -val if sign == "-" else val
     # second opinion through decimal (ASCII only)
-    if t.isascii():
+    if t.isascii() and abs(e) <= 5000:
         with decimal.localcontext() as c:
             c.prec = 12000
             c.Emax = decimal.MAX_EMAX
@@ -249,13 +364,16 @@ def corr_literals_a(ctx):
 
     lits = literal_sample(ctx, ctx.budget(3000, 30000))
     ctx._lits = lits
-    reqs = ["bytes|" + cps(s) for s in lits]
     impl = [classify(convert_to_bytes, s) for s in lits]
+    big = big_sample(ctx, ctx.budget(150, 1200))          # exponents with >= 5 digits: real code in a guarded child process
+    impl = impl + guarded_outcomes(big)
+    lits = lits + big
+    reqs = ["bytes|" + cps(s) for s in lits]
     _reqs = reqs
 
     def finish(ans):
         for s, rq, e, a in zip(lits, reqs, impl, ans):
-            ctx.count({"literal": s, "impl": e}, nontrivial=literal_nontrivial(s), kind=lit_kind(s, e))
+            ctx.count({"literal": s, "impl": e[:80]}, nontrivial=literal_nontrivial(s), kind=lit_kind(s, e))
             if e != a:
                 ctx.disagree("convertStr = convert_to_bytes(str)", {"literal": s, "request": rq}, a, e)
         ctx.traces += len(lits)
@@ -271,8 +389,10 @@ def corr_literals_b(ctx):
     def finish(ans):
         for s, a in zip(sub, ans):
             v = exact_value(s)
+            if v == HUGE:
+                continue
             want = "none" if v is None else "some %d/%d" % (v.numerator, v.denominator)
-            ctx.count({"denote": s, "ref": want}, nontrivial=literal_nontrivial(s), kind="denote:" + want.split(" ")[0])
+            ctx.count({"denote": s, "ref": want[:80]}, nontrivial=literal_nontrivial(s), kind="denote:" + want.split(" ")[0])
             if a != want:
                 ctx.disagree("denote = independent exact reading (fractions/decimal)", {"literal": s}, a, want)
     return _reqs, finish
@@ -932,9 +1052,22 @@ def oracle_literals(ctx):
     import cubed
     from cubed.utils import convert_to_bytes
 
-    lits = literal_sample(ctx, ctx.budget(2500, 25000)) + NONASCII
-    for e in (60, 120, 400, -60, -400):
+    lits = literal_sample(ctx, ctx.budget(2500, 25000)) + NONASCII + ["١e١٠٠١", "１e１０００", "1e١٠٠٠"]
+    for e in (60, 120, 400, -60, -400, 999, 1000, 1001, -1000, -1001, 2000):
         lits += ["1e%d" % e, "12345e%dkB" % e, "1.%se%d" % ("0" * 30 + "1", e)]
+    # exponents with >= 5 digits: the call must return promptly (child process, 5 s per call)
+    big = big_sample(ctx, ctx.budget(150, 1200)) + ["١e٩٩٩٩٩٩٩٩٩", "1e" + "９" * 12]
+    for s, out in zip(big, guarded_outcomes(big)):
+        ctx.count({"oracle_literal": s, "impl": out[:40]}, nontrivial=True, kind="oracle-big:" + " ".join(out.split(" ")[:2])[:24])
+        if out in ("timeout", "crashed"):
+            ctx.fail("convert_to_bytes(%r) did not return within 5 s (%s): neither interpreted nor rejected" % (s, out), {"literal": s, "outcome": out})
+        elif out.startswith("ok"):
+            v = exact_value(s)
+            if not (out.startswith("ok ") and v is not None and v != HUGE and v == int(out[3:])):
+                ctx.fail("convert_to_bytes(%r) returned %s, the string denotes %s" % (s, out[:60], "nothing" if v is None else str(v)[:60]),
+                         {"literal": s, "returned": out[:80]})
+        elif out.startswith("error other"):
+            ctx.fail("convert_to_bytes(%r) raised %s (neither a value nor a ValueError)" % (s, out), {"literal": s})
     for s in lits:
         try:
             r = convert_to_bytes(s)
@@ -945,8 +1078,8 @@ def oracle_literals(ctx):
             ctx.fail("convert_to_bytes(%r) raised %r (neither a value nor a ValueError)" % (s, e), {"literal": s})
             continue
         v = exact_value(s)
-        ctx.count({"oracle_literal": s, "impl": str(r)}, nontrivial=literal_nontrivial(s), kind="oracle-lit:accepted")
-        if type(r) is not int or v is None or v != r or r < 0:
+        ctx.count({"oracle_literal": s, "impl": str(r)[:60]}, nontrivial=literal_nontrivial(s), kind="oracle-lit:accepted")
+        if type(r) is not int or v is None or v == HUGE or v != r or r < 0:
             ctx.fail("convert_to_bytes(%r) returned %r, the string denotes %s" % (s, r, "nothing" if v is None else str(v)),
                      {"literal": s, "returned": repr(r), "exact": None if v is None else str(v)})
             continue
